@@ -702,23 +702,6 @@ def _ints(x):
     return [int(i) for i in x]
 
 
-def fixed_repeats(case, axis, part=None):
-    """does the sort-by-value order of `axis` name an element of the dimension twice in
-    fixed.top + fixed.bottom (ids as the library itself translates them)"""
-    try:
-        dim = part._dimensions[axis]
-        spec = dim.order_spec
-        ids = set(dim.element_ids)
-        lst = [x for x in list(spec.top_fixed_ids) + list(spec.bottom_fixed_ids) if x in ids]
-        return len(set(lst)) != len(lst)
-    except Exception:  # noqa
-        tr = case.get("transforms") or {}
-        d = (tr.get(("rows_dimension", "columns_dimension")[axis]) or {}).get("order") or {}
-        fx = d.get("fixed") or {}
-        lst = [str(x) for x in list(fx.get("top") or []) + list(fx.get("bottom") or [])]
-        return len(set(lst)) != len(lst)
-
-
 def removed_elements(order_a, order_b):
     return sorted(s for s in order_b if s >= 0 and s not in set(order_a))
 
@@ -797,7 +780,7 @@ def check_pair(case, sample_names=None):
             res["issues"].append(Issue("order-duplicates", nm,
                                        {"order": oa, "transforms": (case.get("transforms") or {}).get(
                                            ("rows_dimension", "columns_dimension")[axis])},
-                                       {"sig": "order-duplicates", "fixed_repeats": fixed_repeats(case, axis, A)}))
+                                       {"sig": "order-duplicates"}))
             dup_axes.append(axis)
     names = public_outputs(type(A))
     res["info"]["n_outputs"] = len(names)
@@ -821,7 +804,6 @@ def check_pair(case, sample_names=None):
             # a duplicated vector is double-counted by whatever is computed from the assembled
             # matrices (scale margins, legacy summaries): consequence of the duplicate order
             sc["sig"] = "reindex-mismatch-under-duplicate-order"
-            sc["fixed_repeats"] = all(fixed_repeats(case, ax, A) for ax in dup_axes)
             return sc
         if base in SCALE_FROM_DISPLAYED and not strand:
             ax = SCALE_FROM_DISPLAYED[base]
@@ -841,22 +823,22 @@ def check_pair(case, sample_names=None):
             sc["sig"] = "pairwise-indices-no-columns-1d"
         return sc
 
-    def derived_idxs_issue(name, ra, rb):
-        """IndexError of derived_*_idxs when a dimension has more subtotals than elements"""
-        if not name.startswith("derived_") or strand:
+    def position_list_raises(name, ra, rb):
+        """inserted_* / derived_* / diff_*_idxs are total functions of the display order (Props/C05.v
+        C05_inserted_idxs, C05_derived_idxs_slice / _strand, C05_diff_idxs): an exception in either run
+        is a failure even when both runs raise alike"""
+        if not POSLIST.search(name):
             return False
-        axis = 0 if "row" in name else 1
-        # the flag vector is padded to 2 * n_elements: signed index -k fails from k > 2 * n_elements on
-        more = info[2 * axis + 1] > 2 * info[2 * axis]
-        bad = [r for r in (ra, rb) if r[0] == "exc" and r[1] == "IndexError"]
-        if bad and more:
-            res["issues"].append(Issue("exception", name, {"transformed": ra[1:] if ra[0] == "exc" else "ok",
-                                                           "untransformed": rb[1:] if rb[0] == "exc" else "ok",
-                                                           "n_elements": info[2 * axis],
-                                                           "n_subtotals": info[2 * axis + 1]},
-                                       {"sig": "derived-idxs-indexerror", "subtotals_exceed_padding": True}))
-            return True
-        return False
+        bad = [r for r in (ra, rb) if r[0] == "exc"]
+        if not bad:
+            return False
+        axis = 0 if ("row" in name or strand) else 1
+        res["issues"].append(Issue("exception", name, {"transformed": ra[1:] if ra[0] == "exc" else "ok",
+                                                       "untransformed": rb[1:] if rb[0] == "exc" else "ok",
+                                                       "n_elements": info[2 * axis],
+                                                       "n_subtotals": info[2 * axis + 1]},
+                                   {"sig": "position-list-raises", "output": name}))
+        return True
 
     def one(name, ra, rb):
         if sample_names is not None and name.split("(")[0] not in sample_names:
@@ -866,11 +848,11 @@ def check_pair(case, sample_names=None):
             # broadcasts along the wrong axis depending on the extent - no reference value
             res["info"]["skipped_legacy_on_arrays"] = res["info"].get("skipped_legacy_on_arrays", 0) + 1
             return
+        if position_list_raises(name, ra, rb):
+            res["n"] += 1
+            return
         if rb[0] == "exc" and ra[0] == "ok":
             res["info"]["untransformed_undefined"] = res["info"].get("untransformed_undefined", 0) + 1
-            return
-        if derived_idxs_issue(name, ra, rb):
-            res["n"] += 1
             return
         if (ra[0] == "exc" or rb[0] == "exc") and not (ra[0] == "exc" and rb[0] == "exc"):
             if empty_display:
